@@ -170,6 +170,8 @@ func sortLists(v interface{}) interface{} {
 type igen struct {
 	r     *rand.Rand
 	vars  map[string]interface{}
+	// defaults of declared variables the request leaves out (the oracle is given them as values)
+	defaults map[string]interface{}
 	vdefs []string
 	frags []string
 	nf    int
@@ -238,8 +240,15 @@ func (g *igen) sel(typ string, depth int) string {
 				s += "(includeDeprecated: false)"
 			case 2:
 				v := fmt.Sprintf("d%d", len(g.vdefs))
-				g.vdefs = append(g.vdefs, "$"+v+": Boolean!")
-				g.vars[v] = g.r.Intn(2) == 0
+				if g.r.Intn(3) == 0 {
+					// a variable with a default value that the request does not supply
+					def := g.r.Intn(2) == 0
+					g.vdefs = append(g.vdefs, fmt.Sprintf("$%s: Boolean = %v", v, def))
+					g.defaults[v] = def
+				} else {
+					g.vdefs = append(g.vdefs, "$"+v+": Boolean!")
+					g.vars[v] = g.r.Intn(2) == 0
+				}
 				s += "(includeDeprecated: $" + v + ")"
 			}
 		}
@@ -274,6 +283,8 @@ var c14Corpus = []struct{ ID, Query string; Vars map[string]interface{} }{
 	{"KF-D21-interface-possible-types", `{ __type(name: "Node") { possibleTypes { name } } }`, nil},
 	{"deprecated-default-reason", `{ __type(name: "State") { enumValues(includeDeprecated: true) { name isDeprecated deprecationReason } } }`, nil},
 	{"full-type-refs", `{ __type(name: "Item") { fields(includeDeprecated: true) { name type { kind name ofType { kind name ofType { kind name ofType { kind name } } } } args { name defaultValue type { kind name ofType { name kind } } } } } }`, nil},
+	{"variable-default-type-name", `query ($n: String = "Item") { __type(name: $n) { name kind } }`, nil},
+	{"variable-default-include-deprecated", `query ($d: Boolean = true) { __type(name: "State") { enumValues(includeDeprecated: $d) { name } } a: __type(name: "Owner") { fields(includeDeprecated: $d) { name } } }`, nil},
 	{"unknown-type", `{ __type(name: "Nope") { name } }`, nil},
 	{"skip-on-schema", `{ __schema @skip(if: true) { queryType { name } } a: __typename }`, nil},
 }
@@ -287,7 +298,7 @@ func (c14) Cases(tier string) int {
 }
 
 func (c14) Rule() string {
-	return "merged schemas built from 2-4 services of the merge generator (every kind, deprecated fields and enum values with and without reason, descriptions, default values, repeatable and custom directives, a scalar with @specifiedBy) x generated introspection selections over __Schema/__Type/__Field/__InputValue/__EnumValue/__Directive of depth up to 5 with aliases (also aliases equal to other field names), inline/named/untyped fragments, @skip/@include, includeDeprecated literal and variable, __type(name:) literal and variable, __typename everywhere; the gateway's answer through GetPlans+Execute must equal the Lean introSpec of the merged schema captured through WithPlanner (list order canonicalised); every 10th case rebuilds a schema from the gateway's full introspection result and compares its canonical dump with the merged schema; non-trivial = the selection reaches depth 3; distinct = distinct (schema, query)"
+	return "merged schemas built from 2-4 services of the merge generator (every kind, deprecated fields and enum values with and without reason, descriptions, default values, repeatable and custom directives, a scalar with @specifiedBy) x generated introspection selections over __Schema/__Type/__Field/__InputValue/__EnumValue/__Directive of depth up to 5 with aliases (also aliases equal to other field names), inline/named/untyped fragments, @skip/@include, includeDeprecated literal and variable, __type(name:) literal and variable (variables supplied, or declared with a default and left out), __typename everywhere; the gateway's answer through GetPlans+Execute must equal the Lean introSpec of the merged schema captured through WithPlanner (list order canonicalised); every 10th case rebuilds a schema from the gateway's full introspection result and compares its canonical dump with the merged schema; non-trivial = the selection reaches depth 3; distinct = distinct (schema, query)"
 }
 
 const fullIntrospection = `{ __schema { queryType { name } mutationType { name } subscriptionType { name }
@@ -323,6 +334,7 @@ func (c14) Run(c *Ctx, i int) CaseResult {
 	}
 	var query string
 	vars := map[string]interface{}{}
+	defaults := map[string]interface{}{}
 	id := ""
 	if i < len(c14Corpus) {
 		query, id = c14Corpus[i].Query, "corpus:"+c14Corpus[i].ID
@@ -330,7 +342,7 @@ func (c14) Run(c *Ctx, i int) CaseResult {
 			vars = c14Corpus[i].Vars
 		}
 	} else {
-		g := &igen{r: r, vars: vars}
+		g := &igen{r: r, vars: vars, defaults: defaults}
 		var parts []string
 		if r.Intn(3) != 0 {
 			parts = append(parts, "__schema { "+g.sel("__Schema", 2+r.Intn(3))+" }")
@@ -341,7 +353,11 @@ func (c14) Run(c *Ctx, i int) CaseResult {
 			if len(parts) > 0 && alias == "__schema: " {
 				alias = "t: "
 			}
-			if r.Intn(3) == 0 {
+			if r.Intn(6) == 0 {
+				g.vdefs = append(g.vdefs, fmt.Sprintf("$tn: String = %q", tn))
+				defaults["tn"] = tn
+				parts = append(parts, alias+"__type(name: $tn) { "+g.sel("__Type", 2+r.Intn(3))+" }")
+			} else if r.Intn(3) == 0 {
 				g.vdefs = append(g.vdefs, "$tn: String!")
 				vars["tn"] = tn
 				parts = append(parts, alias+"__type(name: $tn) { "+g.sel("__Type", 2+r.Intn(3))+" }")
@@ -398,7 +414,19 @@ func (c14) Run(c *Ctx, i int) CaseResult {
 		bad("L0.intro", classifier, "a valid introspection query was answered with errors: "+firstLine(eerr.Error()), nil, nil)
 		return res
 	}
-	req := MonoCase(f.Merged, Store{}, doc, doc.Operations[0], vars)
+	// the oracle evaluates with the effective values: what the request supplies, else the declared default
+	eff := map[string]interface{}{}
+	for _, vd := range doc.Operations[0].VariableDefinitions {
+		if vd.DefaultValue != nil {
+			if dv, err := vd.DefaultValue.Value(nil); err == nil {
+				eff[vd.Variable] = dv
+			}
+		}
+	}
+	for k, v := range vars {
+		eff[k] = v
+	}
+	req := MonoCase(f.Merged, Store{}, doc, doc.Operations[0], eff)
 	req["op"] = "intro"
 	req["schema"] = SerISchema(f.Merged)
 	ans, err := c.Drv.Call(req)
